@@ -183,7 +183,11 @@ func execDecodeJSON(a []string) string {
 }
 
 func genDecodeJSON(c *ctx) {
-	t := genJSON(c.r, 3)
+	maxDepth := 3
+	if c.arg == "bodyerr" {
+		maxDepth = 2 + c.r.Intn(4)
+	}
+	t := genJSON(c.r, maxDepth)
 	if c.r.Chance(0.8) && t.kind != 'O' && t.kind != 'A' {
 		t = &jNode{kind: 'O', keys: []string{c.r.Pick(jsonNames...)}, items: []*jNode{t}}
 	}
